@@ -194,7 +194,7 @@ def run(R, env):
                     good = good and a is not None and a[0] == "field" and a[2] == "amount" and amt_(a[1]) and d is not None and d[0] == "field" and d[2] == "denom" and amt_(d[1])
                     good = good and is_contract_addr(t["sender"] or ("none",))
                     R.ob("C13.R4", "SpendFunds:ibc:message", good, "MsgTransfer{channel: %s, receiver: %s, token: (%s, %s)}" % (fmt(t["channel"] or ("none",))[:50], fmt(t["receiver"] or ("none",))[:50], fmt(d or ("none",))[:40], fmt(a or ("none",))[:40]), loc=t["loc"], fn=hk)
-            for _, term in success_terms(w):
+            for _, term in success_terms_deep(prog, w):
                 R.ob("C13.R4", "SpendFunds:%s:one-message-in-response" % name, len(response_calls(term)) == 1, "response carries %d messages" % len(response_calls(term)), fn=hk)
     # the receiver validator itself (treasury's own helper): decoded prefix equality, not a textual test
     vals = set()
